@@ -69,8 +69,22 @@ def run(ctx):
         reps = 10 if tier == "quick" else 40
         for s in SCEN:
             for r in range(reps):
-                p = subprocess.run([texe, "--scenario", s, "--threads", "8", "--free-run", "6"], stdout=subprocess.PIPE,
-                                   stderr=subprocess.PIPE, env=tenv, timeout=300)
+                try:
+                    p = subprocess.run([texe, "--scenario", s, "--threads", "8", "--free-run", "6"], stdout=subprocess.PIPE,
+                                       stderr=subprocess.PIPE, env=tenv, timeout=120)
+                except subprocess.TimeoutExpired:
+                    # 8 free-running threads doing a few dozen library calls each finish in well under a second: not having
+                    # finished after 120 s of wall clock is a hang (a lock that is never given back), re-run once to be sure
+                    try:
+                        p = subprocess.run([texe, "--scenario", s, "--threads", "8", "--free-run", "6"], stdout=subprocess.PIPE,
+                                           stderr=subprocess.PIPE, env=tenv, timeout=300)
+                    except subprocess.TimeoutExpired:
+                        tsan_reports += 1
+                        res.viol.append({"t": "viol", "key": "C08|hang|%s" % s,
+                                         "what": "free-running scenario %s (8 threads) did not finish within 120 s and again within 300 s: threads "
+                                                 "block forever (a mutex that is not released on some path)" % s,
+                                         "replay": {"scenario": s, "tsan": True}})
+                        break
                 tsan_runs += 1
                 err = p.stderr.decode("utf-8", "replace")
                 if p.returncode != 0 or "WARNING: ThreadSanitizer" in err:
